@@ -5,6 +5,11 @@ Part 1: index lists (`padTake`, `setAt`, `insertAt`, `eraseAt`, `swapAt`, `bidx`
 equality is proved by `ext_getD` (same length, same `getD` everywhere) followed by case splits and `omega`.
 Part 2: the generic family `fixLead (op t) c lead = op (fixLead t c lead)` for every primitive that is
 addressed from the end of the shape and touches only the last `c` axes.
+Part 3: rank formulas and the slice laws of the transcriptions (`push_fixLead`: `simp` with Part 2).
+Part 4: `reshape(-1, *core)` / reshape back (`ravel` / `unravel`), per-matrix externals (`mapCore`), `__post_init__`.
+Part 5: the reshape pair with some flattened axes kept in the core (class axis of a mixture).
+Part 6: one EM iteration and the whole EM loop of the GMM trainer.
+Part 7: shapes of the GMM iterates (turns the shape hypothesis of Part 6 into hypotheses on the inputs).
 
 Purely structural: no property of the scalar type is used, so the statements hold verbatim for the
 `Float` instance the driver executes. -/
@@ -1120,10 +1125,6 @@ theorem reshape_pair_gen (op : T α → T β) (c c' e : Nat) (t : T α) (lead : 
 
 /-! ## Part 6: the Gaussian mixture model — one EM iteration and the whole loop -/
 
-section gmm
-variable [Add α] [Sub α] [Mul α] [Div α] [Neg α] [OfNat α 0] [OfNat α 1] [NatCast α] [Max α]
-  [LT α] [DecidableLT α] [BEq α] [Transc α]
-
 theorem validLeadB_sound {dims lead : List Nat} (h : validLeadB dims lead = true) : ValidLead dims lead := by
   intro i hi hne
   simp only [validLeadB, List.all_eq_true, List.mem_range] at h
@@ -1137,6 +1138,11 @@ theorem goodLeadB_sound {r : Nat} {cov : T α} {lead : List Nat} (h : goodLeadB 
     GoodLead r cov lead := by
   simp only [goodLeadB, Bool.and_eq_true, decide_eq_true_eq, List.all_eq_true] at h
   exact ⟨h.1.1, fun d hd => h.1.2 d hd, validLeadB_sound h.2⟩
+
+section gmm
+variable [Add α] [Sub α] [Mul α] [Div α] [Neg α] [OfNat α 0] [OfNat α 1] [NatCast α] [Max α]
+  [LT α] [DecidableLT α] [BEq α] [Transc α]
+set_option linter.unusedSectionVars false
 
 theorem diagonalPostInit_class (cov : T α) (lead : List Nat) (hg : GoodLead 1 cov lead) :
     fixLead (diagonalPostInit cov).1 2 lead = (diagonalPostInit (fixLead cov 2 lead)).1 ∧
@@ -1329,4 +1335,185 @@ theorem gmmFit_fixLead (tiny eps log2pi : α) (ct : CovType) (chol : T α → T 
     exact this
 
 end gmm
+/-! ## Part 7: shapes of the GMM iterates (discharges the shape hypothesis of `gmmFit_fixLead`) -/
+
+@[simp] theorem rshape_map (f : α → β) (t : T α) : (map f t).rshape = t.rshape := rfl
+@[simp] theorem rshape_const (s : List Nat) (x : α) : (const s x).rshape = s := rfl
+@[simp] theorem rshape_zipWith (f : α → β → γ) (a : T α) (b : T β) : (zipWith f a b).rshape = bshape a.rshape b.rshape := rfl
+@[simp] theorem rshape_reduceKeep (k : Nat) (r : Nat → (Nat → α) → β) (t : T α) :
+    (reduceKeep k r t).rshape = setAt 1 t.rshape k 1 := rfl
+@[simp] theorem rshape_reduceDrop (k : Nat) (r : Nat → (Nat → α) → β) (t : T α) :
+    (reduceDrop k r t).rshape = eraseAt 1 t.rshape k := rfl
+@[simp] theorem rshape_expandDims (k : Nat) (t : T α) : (expandDims k t).rshape = insertAt 1 t.rshape k 1 := rfl
+@[simp] theorem rshape_flattenLead (c : Nat) (t : T α) :
+    (flattenLead c t).rshape = t.rshape.take c ++ [prodList (t.rshape.drop c)] := rfl
+@[simp] theorem rshape_unflattenLead (c : Nat) (lead : List Nat) (t : T α) :
+    (unflattenLead c lead t).rshape = t.rshape.take c ++ lead := rfl
+@[simp] theorem rshape_mapCore (c c' : Nat) (o : List Nat) (g : T α → T β) (t : T α) :
+    (mapCore c c' o g t).rshape = o ++ t.rshape.drop c := rfl
+@[simp] theorem rshape_diagLast2 (t : T α) : (diagLast2 t).rshape = t.rshape.drop 1 := rfl
+
+theorem bshape_cons_cons (a b : Nat) (as bs : List Nat) :
+    bshape (a :: as) (b :: bs) = (if a = 1 then b else a) :: bshape as bs := by
+  apply ext_getD
+  · simp
+  · intro i hi
+    simp only [getD_bshape, getD_cons', List.length_cons]
+    cases i with
+    | zero => simp
+    | succ j =>
+      simp only [Nat.add_sub_cancel, Nat.succ_ne_zero, if_false]
+      have : (j + 1 < max (as.length + 1) (bs.length + 1)) ↔ (j < max as.length bs.length) := by omega
+      simp only [this]
+
+theorem bshape_self (l : List Nat) : bshape l l = l := by
+  apply ext_getD
+  · simp
+  · intro i hi
+    simp only [length_bshape, Nat.max_self] at hi
+    simp only [getD_bshape, Nat.max_self, hi, if_true]
+    split <;> simp_all
+
+theorem bshape_nil_left (l : List Nat) : bshape [] l = l := by
+  apply ext_getD
+  · simp
+  · intro i hi
+    simp only [length_bshape, List.length_nil, Nat.zero_max] at hi
+    simp only [getD_bshape, List.length_nil, Nat.zero_max, hi, if_true]
+    have : ([] : List Nat).getD i 1 = 1 := rfl
+    simp only [this, if_true]
+    exact getD_default_irrel _ _ _ _ hi
+
+theorem bshape_nil_right (l : List Nat) : bshape l [] = l := by
+  apply ext_getD
+  · simp
+  · intro i hi
+    simp only [length_bshape, List.length_nil, Nat.max_zero] at hi
+    simp only [getD_bshape, List.length_nil, Nat.max_zero, hi, if_true]
+    split <;> simp_all
+
+theorem ite_one_self (a : Nat) : (if a = 1 then 1 else a) = a := by split <;> simp_all
+theorem ite_one_one (a : Nat) : (if (1 : Nat) = 1 then a else 1) = a := by simp
+
+-- index manipulations on explicit lists (literal positions)
+theorem insertAt_zero (d : Nat) (l : List Nat) (x : Nat) : insertAt d l 0 x = x :: l := by simp [insertAt, padTake]
+theorem insertAt_one_cons (d a : Nat) (l : List Nat) (x : Nat) : insertAt d (a :: l) 1 x = a :: x :: l := by
+  simp [insertAt, padTake]
+theorem insertAt_two_cons (d a b : Nat) (l : List Nat) (x : Nat) : insertAt d (a :: b :: l) 2 x = a :: b :: x :: l := by
+  simp [insertAt, padTake, List.range_succ]
+theorem eraseAt_zero_cons (d a : Nat) (l : List Nat) : eraseAt d (a :: l) 0 = l := by simp [eraseAt, padTake]
+theorem eraseAt_one_cons (d a b : Nat) (l : List Nat) : eraseAt d (a :: b :: l) 1 = a :: l := by simp [eraseAt, padTake]
+theorem eraseAt_two_cons (d a b c : Nat) (l : List Nat) : eraseAt d (a :: b :: c :: l) 2 = a :: b :: l := by
+  simp [eraseAt, padTake, List.range_succ]
+theorem setAt_zero_cons (d a : Nat) (l : List Nat) (x : Nat) : setAt d (a :: l) 0 x = x :: l := by simp [setAt, padTake]
+theorem setAt_one_cons (d a b : Nat) (l : List Nat) (x : Nat) : setAt d (a :: b :: l) 1 x = a :: x :: l := by
+  simp [setAt, padTake]
+
+
+/-- reversed core shape of one covariance -/
+def covCore : CovType → Nat → List Nat
+  | .full, D => [D, D]
+  | .diagonal, D => [D]
+  | .spherical, _ => []
+
+macro "shape_simp" "[" defs:Lean.Parser.Tactic.simpLemma,* "]" : tactic =>
+  `(tactic| simp only [$defs,*, rshape_map, rshape_const, rshape_zipWith, rshape_reduceKeep, rshape_reduceDrop,
+      rshape_expandDims, rshape_flattenLead, rshape_unflattenLead, rshape_mapCore, rshape_diagLast2,
+      sumAxisKeep, sumAxis, meanAxisKeep, meanAxis, amaxAxisKeep, amaxAxis,
+      bshape_cons_cons, bshape_self, bshape_nil_left, bshape_nil_right, ite_one_self, ite_one_one, ite_self,
+      insertAt_zero, insertAt_one_cons, insertAt_two_cons, eraseAt_zero_cons, eraseAt_one_cons, eraseAt_two_cons,
+      setAt_zero_cons, setAt_one_cons, if_true, List.take_succ_cons, List.take_zero, List.drop_succ_cons, List.drop_zero,
+      List.cons_append, List.nil_append, List.append_nil, List.take_nil, List.drop_nil])
+
+section gmmShapes
+variable [Add α] [Sub α] [Mul α] [Div α] [Neg α] [OfNat α 0] [OfNat α 1] [NatCast α] [Max α]
+  [LT α] [DecidableLT α] [BEq α] [Transc α]
+set_option linter.unusedSectionVars false
+
+theorem gaussPostInit_shapes (ct : CovType) (chol : T α → T α) (dim : Nat) (cov : T α) (D K : Nat) (Ld : List Nat)
+    (h : cov.rshape = covCore ct D ++ K :: Ld) :
+    (gaussPostInit ct chol dim cov).1.rshape = covCore ct D ++ K :: Ld ∧
+    (gaussPostInit ct chol dim cov).2.rshape = K :: Ld := by
+  cases ct <;> simp only [covCore] at h ⊢ <;> constructor <;>
+    shape_simp [gaussPostInit, fullPostInit, diagonalPostInit, sphericalPostInit, h]
+
+theorem gmmMStep_shapes (tiny eps : α) (ct : CovType) (chol : T α → T α) (y aff sal : T α) (D N K : Nat) (Ld : List Nat)
+    (hy : y.rshape = D :: N :: Ld) (ha : aff.rshape = N :: K :: Ld) (hs : sal.rshape = N :: Ld) :
+    (gmmMStep tiny eps ct chol y aff sal).weight.rshape = 1 :: K :: Ld ∧
+    (gmmMStep tiny eps ct chol y aff sal).mean.rshape = D :: K :: Ld ∧
+    (gmmMStep tiny eps ct chol y aff sal).cov.rshape = covCore ct D ++ K :: Ld ∧
+    (gmmMStep tiny eps ct chol y aff sal).pc.rshape = covCore ct D ++ K :: Ld ∧
+    (gmmMStep tiny eps ct chol y aff sal).logDet.rshape = K :: Ld := by
+  refine ⟨?_, ?_, ?_, ?_, ?_⟩
+  · shape_simp [gmmMStep, estimateMixtureWeight, hy, ha, hs]
+  · cases ct <;> shape_simp [gmmMStep, gaussianFit, hy, ha, hs]
+  · cases ct <;> shape_simp [gmmMStep, gaussianFit, covCore, hy, ha, hs]
+  · have hc : (gaussianFit tiny ct (expandDims 2 y) (some (zipWith (fun a b : α => a * b) aff (expandDims 1 sal)))).2.rshape =
+        covCore ct D ++ K :: Ld := by
+      cases ct <;> shape_simp [gaussianFit, covCore, hy, ha, hs]
+    exact (gaussPostInit_shapes ct chol _ _ D K Ld hc).1
+  · have hc : (gaussianFit tiny ct (expandDims 2 y) (some (zipWith (fun a b : α => a * b) aff (expandDims 1 sal)))).2.rshape =
+        covCore ct D ++ K :: Ld := by
+      cases ct <;> shape_simp [gaussianFit, covCore, hy, ha, hs]
+    exact (gaussPostInit_shapes ct chol _ _ D K Ld hc).2
+
+theorem gmmPredict_shape (tiny log2pi : α) (ct : CovType) (m : Gmm α) (y : T α) (D N K : Nat) (Ld : List Nat)
+    (hw : m.weight.rshape = 1 :: K :: Ld) (hm : m.mean.rshape = D :: K :: Ld)
+    (hp : m.pc.rshape = covCore ct D ++ K :: Ld) (hl : m.logDet.rshape = K :: Ld) (hy : y.rshape = D :: N :: Ld) :
+    (gmmPredict tiny log2pi ct m y).rshape = N :: K :: Ld := by
+  cases ct <;> simp only [covCore] at hp <;>
+    shape_simp [gmmPredict, logPdfToAffiliation, gaussLogPdfOf, gaussianLogPdf, diagonalGaussianLogPdf,
+      sphericalGaussianLogPdf, gaussLogPdfTail, hw, hm, hp, hl, hy]
+
+theorem gmmFit_shapes (tiny eps log2pi : α) (ct : CovType) (chol : T α → T α) (y init sal : T α) (D N K : Nat)
+    (Ld : List Nat) (hy : y.rshape = D :: N :: Ld) (hi : init.rshape = N :: K :: Ld) (hs : sal.rshape = N :: Ld)
+    (n : Nat) :
+    (gmmFit tiny eps log2pi ct chol y init sal n).weight.rshape = 1 :: K :: Ld ∧
+    (gmmFit tiny eps log2pi ct chol y init sal n).mean.rshape = D :: K :: Ld ∧
+    (gmmFit tiny eps log2pi ct chol y init sal n).cov.rshape = covCore ct D ++ K :: Ld ∧
+    (gmmFit tiny eps log2pi ct chol y init sal n).pc.rshape = covCore ct D ++ K :: Ld ∧
+    (gmmFit tiny eps log2pi ct chol y init sal n).logDet.rshape = K :: Ld := by
+  induction n with
+  | zero => exact gmmMStep_shapes tiny eps ct chol y init sal D N K Ld hy hi hs
+  | succ n ih =>
+    obtain ⟨h1, h2, -, h4, h5⟩ := ih
+    exact gmmMStep_shapes tiny eps ct chol y _ sal D N K Ld hy
+      (gmmPredict_shape tiny log2pi ct _ y D N K Ld h1 h2 h4 h5 hy) hs
+
+theorem length_covCore (ct : CovType) (D : Nat) : (covCore ct D).length = covRank ct := by cases ct <;> rfl
+
+theorem goodLead_of_shape (ct : CovType) (cov : T α) (D K : Nat) (Ld lead : List Nat)
+    (h : cov.rshape = covCore ct D ++ K :: Ld) (hK : 0 < K) (hpos : ∀ d, d ∈ Ld → 0 < d) (hv : ValidLead Ld lead) :
+    GoodLead (covRank ct) cov lead := by
+  have hl := length_covCore ct D
+  refine ⟨?_, ?_, ?_⟩
+  · simp only [T.rank, h, List.length_append, List.length_cons, hl]; omega
+  · intro d hd
+    rw [h, List.drop_append, ← hl] at hd
+    simp only [List.drop_length, Nat.sub_self, List.drop_zero, List.nil_append, List.mem_cons] at hd
+    rcases hd with rfl | hd
+    · exact hK
+    · exact hpos d hd
+  · have : cov.rshape.drop (covRank ct + 1) = Ld := by
+      rw [h, ← hl, ← List.drop_drop, List.drop_append]; simp
+    rw [this]; exact hv
+
+/-- **`GMMTrainer._fit` on well-shaped inputs**: observations `(*lead, N, D)`, initial affiliation `(*lead, K, N)`,
+saliency `(*lead, N)` with `K > 0` and no empty leading axis; then for every in-range leading index and every
+number of iterations the stacked model restricted to that index is the model of the slice alone. -/
+theorem gmmFit_fixLead_shaped (tiny eps log2pi : α) (ct : CovType) (chol : T α → T α) (y init sal : T α)
+    (D N K : Nat) (Ld lead : List Nat)
+    (hy : y.rshape = D :: N :: Ld) (hi : init.rshape = N :: K :: Ld) (hs : sal.rshape = N :: Ld)
+    (hK : 0 < K) (hpos : ∀ d, d ∈ Ld → 0 < d) (hv : ValidLead Ld lead) (n : Nat) :
+    (gmmFit tiny eps log2pi ct chol y init sal n).fix ct lead =
+      gmmFit tiny eps log2pi ct chol (fixLead y 2 lead) (fixLead init 2 lead) (fixLead sal 1 lead) n := by
+  apply gmmFit_fixLead
+  · simp only [T.rank, hy, List.length_cons]; omega
+  · simp only [T.rank, hi, List.length_cons]; omega
+  · simp only [T.rank, hs, List.length_cons]; omega
+  · intro k _
+    exact goodLead_of_shape ct _ D K Ld lead
+      (gmmFit_shapes tiny eps log2pi ct chol y init sal D N K Ld hy hi hs k).2.2.1 hK hpos hv
+
+end gmmShapes
 end PbBss.Tensor
